@@ -124,6 +124,16 @@ def edits(m, rng, g):
         else:
             r["min"] = r["min"] - 1 if r["min"] > 0 else r["min"] + 1
         yield "card", m2
+    # one constraint more (one that sorts after all the others, one that sorts before them)
+    for kind, extra in (("ctc-added-last", spec.OP("XOR", spec.T("zzz"), spec.T("zzzz"))),
+                        ("ctc-added-first", spec.OP("AND", spec.T("0aa"), spec.T("0ab")))):
+        m2 = clone()
+        m2["ctcs"].append(("extra", extra))
+        yield kind, m2
+    if m["ctcs"]:
+        m2 = clone()
+        m2["ctcs"].pop()
+        yield "ctc-removed", m2
     # [a..n] over n children  ->  [a..*]
     m2 = clone()
     rs = [r for f in spec.spec_features(m2["root"]) for r in f["rels"] if r["max"] == len(r["children"])]
